@@ -2,4 +2,4 @@ From Coq Require Import Extraction ExtrOcamlBasic ExtrOcamlString NArith.
 From Oras Require Import Model.OciGC.
 Extraction Language OCaml.
 (* N.of_nat only so that the types positive/n used by ml/common.ml exist *)
-Extraction "xc09.ml" init cfg_fixed cfg_orig step preds is_manifest_kind N.of_nat.
+Extraction "xc09.ml" init pinit cfg_fixed cfg_orig step pstep preds is_manifest_kind kind_has_subject N.of_nat.
